@@ -227,7 +227,7 @@ class FnTir:
                 elif pat.get("k") == "tuple":
                     for i, s in enumerate(pat["subs"]):
                         if s.get("k") == "bind":
-                            self.env[s["name"]] = ("hole", "UNKNOWN", {"what": "%s.%d" % (text(init), i), "of": init, "idx": i}, init.get("sp"))
+                            self.env[s["name"]] = self.component(init, i)
             if e.get("els") is not None:
                 items.append(("alt", [({"text": "let-else matched", "e": e, "taken": True}, ("seq", [])),
                                       ({"text": "let-else failed", "e": e, "taken": False}, self.W(e["els"]))]))
@@ -469,7 +469,15 @@ class FnTir:
         if k == "field":
             return self.hole_for(e, text(e))
         if k == "block":
-            for s in e.get("stmts") or []:
+            tail = H.peel_ref(e["expr"]) if isinstance(e.get("expr"), dict) else None
+            stmts = e.get("stmts") or []
+            if tail is not None and tail.get("k") == "local" and any(
+                    s.get("k") == "stmt_let" and s["pat"].get("k") == "bind" and s["pat"].get("mut") and s["pat"].get("name") == tail["name"] for s in stmts):
+                # `{ let mut buf = String::from(".."); ..push_str..; buf }`: the value is what the block writes into the buffer
+                eff = ("seq", [self.W(s) for s in stmts])
+                if self.sinks.get(tail["name"]) == "buffer":
+                    return project(eff, tail["name"])
+            for s in stmts:
                 if s.get("k") == "stmt_let" and s["pat"].get("k") == "bind" and s.get("init") is not None and not s["pat"].get("mut"):
                     self.env[s["pat"]["name"]] = self.S(s["init"], depth + 1)
                     self.env_expr[s["pat"]["name"]] = s["init"]
@@ -522,6 +530,10 @@ class FnTir:
                     return ("hole", "DISPLAY", {"what": text(recv), "ty": rt}, e.get("sp"))
                 if name in ("unwrap", "as_ref", "clone", "deref", "borrow", "into"):
                     return self.S(recv, depth + 1)
+            if k == "call" and name in ("from", "to_string", "to_owned", "into") and len(args) == 1 and recv is None and \
+                    callee in ("core::convert::From::from", "core::convert::Into::into", "alloc::string::ToString::to_string", "alloc::borrow::ToOwned::to_owned") and \
+                    is_stringy(strip_ref(self.ty(args[0]))) and is_stringy(strip_ref(self.ty(e))):
+                return self.S(args[0], depth + 1)        # String::from("lit") and friends: the same text
             if callee == "crate::backend::EscapeBuilder::escape_string":
                 return ("hole", "ESCAPED_STR", {"what": text(args[0]) if args else "", "inner": self.S(args[0], depth + 1) if args else None, "node": e}, e.get("sp"))
             if callee == "crate::types::Iden::quoted":
@@ -547,6 +559,32 @@ class FnTir:
                                           "args": [text(a) for a in args], "arg_nodes": ([recv] if recv is not None else []) + list(args), "node": e}, e.get("sp"))
             return self.hole_for(e, text(e))
         return self.hole_for(e, text(e))
+
+    def component(self, e, i, depth=0):
+        """string-TIR of the i-th component of a tuple-valued expression: through `if` / `match` / blocks down to the tuple
+        literals; whatever is not a tuple literal stays an UNKNOWN hole that remembers the expression"""
+        e0 = e
+        e = H.peel_ref(H.peel(e)) if isinstance(e, dict) else e
+        if isinstance(e, dict) and depth < 6:
+            k = e.get("k")
+            if k == "tuple" and i < len(e.get("es") or []):
+                return self.S(e["es"][i], depth + 1)
+            if k == "block" and e.get("expr") is not None and not e.get("stmts"):
+                return self.component(e["expr"], i, depth + 1)
+            if k == "if" and e.get("else") is not None:
+                return ("alt", [(self.guard(e["cond"], True), self.component(e["then"], i, depth + 1)),
+                                (self.guard(e["cond"], False), self.component(e["else"], i, depth + 1))])
+            if k == "match":
+                alts = []
+                for arm in e["arms"]:
+                    g = {"text": pat_text(arm["pat"]) + ((" if " + text(arm["guard"])) if arm.get("guard") is not None else ""),
+                         "pat": arm["pat"], "scrut": e["scrut"], "arm_guard": arm.get("guard"), "sp": arm.get("sp")}
+                    if H.diverges(H.peel(arm["body"])) or self.is_diverging(arm["body"]):
+                        continue
+                    alts.append((g, self.component(arm["body"], i, depth + 1)))
+                return ("alt", alts)
+        e = e0 if isinstance(e0, dict) else {}
+        return ("hole", "UNKNOWN", {"what": "%s.%d" % (text(e), i), "of": e, "idx": i}, e.get("sp"))
 
     def is_diverging(self, b):
         b = H.peel(b)
